@@ -104,7 +104,11 @@ func parseOp(s string) (Op, bool) {
 // Lines renders the case (with exact picks when given).
 func (c Case) Lines(picks []int) []string {
 	var out []string
-	out = append(out, fmt.Sprintf("conc n=%d multi=%s seed=%d", c.N, joinInts(c.Multi), c.Seed))
+	head := fmt.Sprintf("conc n=%d multi=%s seed=%d", c.N, joinInts(c.Multi), c.Seed)
+	if c.Tag == "check-then-add" {
+		head += " family=" + c.Tag
+	}
+	out = append(out, head)
 	for _, r := range c.Rules {
 		out = append(out, fmt.Sprintf("hrule %d %s %s", r.State, r.Hook, r.Op))
 	}
@@ -146,6 +150,8 @@ func ParseCase(lines []string) (Case, error) {
 					c.Multi = parseInts(v)
 				case "seed":
 					c.Seed, _ = strconv.ParseInt(v, 10, 64)
+				case "family":
+					c.Tag = v
 				}
 			}
 		case "hrule":
@@ -745,6 +751,31 @@ func (s *sched) afterRun() {
 			case <-m.WhenQueue(c.Res):
 			case <-time.After(200 * time.Millisecond):
 				s.failLocked("", fmt.Sprintf("WhenQueue(%d) of call %d (%s) never closes", uint64(c.Res), c.Call, c.Op))
+			}
+		}
+	}
+	if s.c.Tag == "check-then-add" {
+		// add-only, nothing vetoes: every state an Add named is active on the idle machine
+		want := map[int]bool{}
+		for _, t := range s.c.Threads {
+			for _, o := range t {
+				if o.Kind == "add" {
+					for _, x := range o.States {
+						want[x] = true
+					}
+				}
+			}
+		}
+		for _, ru := range s.c.Rules {
+			if ru.Op.Kind == "add" {
+				for _, x := range ru.Op.States {
+					want[x] = true
+				}
+			}
+		}
+		for x := range want {
+			if x < len(s.names) && !m.Is1(s.names[x]) {
+				s.failLocked("", fmt.Sprintf("an Add of %s was made (nothing removes or vetoes it) but the idle machine does not have it active: the mutation was lost (active: %v, calls: %v)", s.names[x], m.ActiveStates(nil), r.Calls))
 			}
 		}
 	}
